@@ -85,14 +85,20 @@ func vunderWhole(n *vnode) bool {
 	return false
 }
 
-func vshape(n *vnode) string {
+func vshape(n *vnode) (s string) {
 	if n.op == "where" && vunderWhole(n.kids[0]) {
 		// a restriction above a whole-row min/max (open known finding: Where.Transform still
 		// moves conditions on non-by source columns below it) — distinct from the
 		// name-collision case `where-over-summarize`, which stays a regression
 		return "where-over-wholerow-summarize"
 	}
-	s := n.kind()
+	s = n.kind()
+	defer func() {
+		if n.op == "where" && vinEmpty(n.expr) {
+			// an in-list with '' among its values (its index point is a prefix of the others)
+			s += "+in-empty"
+		}
+	}()
 	for i, k := range n.kids {
 		if i == 0 {
 			s += "-over-" + k.kind()
@@ -120,6 +126,11 @@ func vC22Model(tr *lib.Trace, r *rand.Rand, n int) {
 		g.emitTables(tr)
 		for i := 0; i < 8 && done < n; i++ {
 			q := g.build(1 + r.Intn(4))
+			if r.Intn(10) == 0 {
+				if s := g.singletonJoin(); s != nil && g.valid(s) {
+					q = s
+				}
+			}
 			if r.Intn(6) == 0 {
 				if s := g.unary(q, "sort"); s != nil && g.valid(s) {
 					q = s
@@ -143,6 +154,7 @@ func (g *vdb) checkC22(tr *lib.Trace, q *vnode, seed uint64) {
 		return
 	}
 	tr.Count(fmt.Sprintf("rows=%s", vbucket(len(exp.rows))))
+	g.setopOracle(tr, q, seed)
 	first := true
 	reported := false
 	for _, s := range vstrategies {
@@ -186,6 +198,22 @@ func (g *vdb) checkC22(tr *lib.Trace, q *vnode, seed uint64) {
 	}
 }
 
+func vinEmpty(e *vexpr) bool {
+	if e.op == "in" {
+		for _, v := range e.vals {
+			if v == EmptyStr {
+				return true
+			}
+		}
+	}
+	for _, k := range e.kids {
+		if vinEmpty(k) {
+			return true
+		}
+	}
+	return false
+}
+
 func vhasWhole(n *vnode) bool {
 	if n.op == "summarize" && n.whole {
 		return true
@@ -208,6 +236,100 @@ func verrSig(err string) string {
 		return "invalid-query"
 	}
 	return "panic"
+}
+
+// setopOracle: union / intersect / minus executed as a whole against the same operation done
+// here on the separately executed sources (rows compared over the union of the column sets, a
+// missing column reading as ""). Independent of Simple(), which shares Compatible with the
+// executed operators.
+func (g *vdb) setopOracle(tr *lib.Trace, n *vnode, seed uint64) {
+	if n.op != "union" && n.op != "intersect" && n.op != "minus" {
+		return
+	}
+	whole, plan := g.execute(n.src(), vstrategies[0], seed)
+	ra, _ := g.execute(n.kids[0].src(), vstrategies[0], seed)
+	rb, _ := g.execute(n.kids[1].src(), vstrategies[0], seed)
+	if whole.err != "" || ra.err != "" || rb.err != "" {
+		return
+	}
+	all := append([]string{}, ra.cols...)
+	for _, c := range rb.cols {
+		if !vhasStr(all, c) {
+			all = append(all, c)
+		}
+	}
+	sort.Slice(all, func(i, j int) bool { return g.ids.id(all[i]) < g.ids.id(all[j]) })
+	pad := func(r *vresult) []string {
+		out := make([]string, len(r.rows))
+		for i, row := range r.rows {
+			vals := strings.Split(row, ",")
+			ss := make([]string, len(all))
+			for j, c := range all {
+				ss[j] = "s" // ""
+				for k, rc := range r.cols {
+					if rc == c && k < len(vals) {
+						ss[j] = vals[k]
+					}
+				}
+			}
+			out[i] = strings.Join(ss, ",")
+		}
+		return out
+	}
+	pa, pb := pad(ra), pad(rb)
+	inB := map[string]bool{}
+	for _, r := range pb {
+		inB[r] = true
+	}
+	inA := map[string]bool{}
+	for _, r := range pa {
+		inA[r] = true
+	}
+	var want []string
+	switch n.op {
+	case "union":
+		want = append(want, pa...)
+		for _, r := range pb {
+			if !inA[r] {
+				want = append(want, r)
+			}
+		}
+	case "intersect":
+		for _, r := range pa {
+			if inB[r] {
+				want = append(want, r)
+			}
+		}
+	case "minus":
+		for _, r := range pa {
+			if !inB[r] {
+				want = append(want, r)
+			}
+		}
+	}
+	// compare over the columns of the whole result
+	proj := func(rows []string) []string {
+		out := make([]string, len(rows))
+		for i, row := range rows {
+			vals := strings.Split(row, ",")
+			var ss []string
+			for _, c := range whole.cols {
+				for j, ac := range all {
+					if ac == c {
+						ss = append(ss, vals[j])
+					}
+				}
+			}
+			out[i] = strings.Join(ss, ",")
+		}
+		sort.Strings(out)
+		return out
+	}
+	tr.Count("setop-oracle=" + n.op)
+	if got, exp := strings.Join(whole.rows, ";"), strings.Join(proj(want), ";"); got != exp {
+		tr.Fail("setop-vs-sources:"+n.op, "db: "+g.describe()+" query: "+n.src()+" | executes: "+vtrunc(plan, 300)+
+			" | the operation on the separately executed sources: "+vtrunc(exp, 300)+" | executed: "+vtrunc(got, 300))
+	}
 }
 
 func vbucket(n int) string {
